@@ -908,7 +908,7 @@ Proof.
                          | PyExc TypeError =>
                              do _ <- match k with VUndef _ => poke pol DStr | _ => Ok tt end;;
                              LErr LiquidTypeError None
-                         | PyExc KeyError => Ok false
+                         | PyExc KeyError | PyExc IndexError => Ok false
                          | Ok x => Ok (negb (is_nil x))
                          | LErr c p => LErr c p
                          | PyExc e => PyExc e
